@@ -47,6 +47,8 @@ def outcome(fn):
 def same(a, b):
     if a.shape != b.shape:
         return False
+    if a.dtype.kind not in "biufc" or b.dtype.kind not in "biufc":
+        return bool(np.array_equal(a, b))         # e.g. both calls returned text
     if a.dtype.kind in "biu" and b.dtype.kind in "biu":
         return np.array_equal(a, b)
     return np.allclose(a, b, rtol=1e-6, atol=1e-9, equal_nan=True)
